@@ -2,6 +2,7 @@
 import copy
 import json
 import os
+import sys
 import shutil
 from pathlib import Path
 
@@ -635,6 +636,94 @@ def generated_cases():
 G.EXTRAS[0] = False  # undeclared extra fields have no type, so no merge rule applies to them
 
 
+def check_versionless_nested(rec):
+    """A nested object made with the class handed out by schemas.get(name) / schemas[name] (no version stated) is an
+    object of the same schema: it merges recursively with a parsed partial like one made with the versioned class."""
+    from metador_core.plugins import schemas
+
+    for name, v, _ in G.installed_schemas():
+        cls = schemas.get(name, tuple(v))
+        for fname, fld in cls.__fields__.items():
+            inner = fld.type_
+            pgi = getattr(inner, "Plugin", None) if isinstance(inner, type) else None
+            if pgi is None or fld.shape != 1 or not getattr(pgi, "name", None):
+                continue
+            for how, handle in (("versioned", schemas.get(pgi.name, tuple(pgi.version))), ("get", schemas.get(pgi.name)), ("getitem", schemas[pgi.name])):
+                # two nested partial objects with disjoint optional fields, one of them converted from an object of `handle`
+                opt = [n for n, f in handle.__fields__.items() if not f.required and n not in getattr(handle, "__constants__", {})
+                       and f.type_ in (str,) or getattr(f.type_, "__name__", "") in ("NonEmptyStr",)]
+                if len(opt) < 2:
+                    break
+                try:
+                    nested_obj = handle.construct(**{opt[0]: "first"})
+                    a = cls.Partial.construct(**{fname: nested_obj})
+                    b = cls.Partial.parse_obj({fld.alias: {handle.__fields__[opt[1]].alias: "second"}})
+                except Exception:  # noqa: BLE001
+                    break
+                case = dict(kind="versionless-nested", schema=name, field=fname, nested=pgi.name, handle=how)
+                for order, (x, y) in (("object+parsed", (a, b)), ("parsed+object", (b, a))):
+                    for ow in (False, True):
+                        try:
+                            m = getattr(x.merge_with(y, allow_overwrite=ow), fname)
+                            got = (getattr(m, opt[0], None), getattr(m, opt[1], None))
+                            err = None if got == ("first", "second") else f"nested values {got}"
+                        except Exception as e:  # noqa: BLE001
+                            err = f"{type(e).__name__}: {str(e).splitlines()[0][:150]}"
+                        if err:
+                            rec.fail("C14:nested-object-of-versionless-class-not-merged" if how != "versioned" else "C14:nested-object-not-merged",
+                                     dict(case, order=order, overwrite=ow), err, "('first', 'second')")
+                rec.case(nt_key=["versionless-nested", name, fname, how], classes=["versionless_nested_object"], sample=case)
+
+
+_REC_FAMILY = """
+from typing import Optional
+from metador_core.schema.core import MetadataSchema, check_types
+
+class Thing(MetadataSchema):
+    name: Optional[str]
+    subjectOf: Optional["Work"]
+
+class Work(Thing):
+    version: Optional[int]
+
+Thing.update_forward_refs(Work=Work)
+Work.update_forward_refs(Work=Work)
+check_types(Work)
+"""
+
+
+def check_recursive_family(rec):
+    """A recursive model family whose recursion goes through a subclass (schema.org: Thing.subjectOf is a Work, a
+    Work is a Thing): nested objects merge recursively whichever partial class was asked for first."""
+    import types as _t
+
+    for first in ("Thing", "Work"):
+        mod = _t.ModuleType(f"vt_c14_rec_{first}")
+        sys.modules[mod.__name__] = mod
+        exec(compile(_REC_FAMILY, mod.__name__, "exec"), mod.__dict__)
+        case = dict(kind="recursive-family", first_partial=first)
+        try:
+            getattr(mod, first).Partial
+            TP, WP = mod.Thing.Partial, mod.Work.Partial
+            p1 = TP.to_partial(mod.Thing(name="thing", subjectOf=mod.Work(name="paper")))
+            p2 = TP.parse_obj({"subjectOf": {"version": 0}})
+            p3 = TP.construct(subjectOf=WP(name="paper"))
+        except Exception as e:  # noqa: BLE001
+            rec.fail("C14:recursive-family:setup-raises", case, f"{type(e).__name__}: {str(e)[:200]}", "partials can be made")
+            continue
+        for label, (a, b) in (("complete+parsed", (p1, p2)), ("parsed+complete", (p2, p1)), ("constructed+parsed", (p3, p2))):
+            for ow in (False, True):
+                try:
+                    r = a.merge_with(b, allow_overwrite=ow)
+                    got = (r.subjectOf.name, r.subjectOf.version)
+                    err = None if got == ("paper", 0) else f"(name, version) = {got}"
+                except Exception as e:  # noqa: BLE001
+                    err = f"{type(e).__name__}: {str(e).splitlines()[0][:150]}"
+                if err:
+                    rec.fail("C14:recursive-family:nested-object-not-merged", dict(case, operands=label, overwrite=ow), err, "('paper', 0)")
+        rec.case(nt_key=["recursive-family", first], classes=["recursive_family_through_subclass"], sample=case)
+
+
 def plan(tier, seed):
     inst = G.installed_schemas()
     sh = [dict(name=f"installed-{n}", kind="installed", schema=n, version=list(v)) for n, v, _ in inst]
@@ -653,6 +742,8 @@ def run_shard(shard, tier, seed, rec):
         except Violation as v:
             rec.fail(v.signature, case, v.observed, v.expected)
         rec.case(classes=["probe_datetime"])
+        check_versionless_nested(rec)
+        check_recursive_family(rec)
         return
     if shard["kind"] == "installed":
         from metador_core.plugins import schemas
